@@ -254,14 +254,12 @@ func runC19(c *Ctx) {
 			for _, e := range ps.Calls(".requestPlayers") {
 				n++
 				cnt := e.Args[1].asAff()
-				okc := false
-				if len(cnt.T) == 2 && cnt.C == 0 {
-					for t, co := range cnt.T {
-						if strings.HasPrefix(t, "conv:int(math.Floor(") && co == 1 {
-							okc = true
-						}
-					}
-					if cnt.T["lookup(recv.tables, param:"+sync.Params[1].Name()+").PlayerCount"] != -1 {
+				// current count of the syncing table at this point: PlayerCount - out
+				cur := affTerm("lookup(recv.tables, param:"+sync.Params[1].Name()+").PlayerCount").add(affTerm("param:"+sync.Params[2].Name()), -1)
+				rest := cnt.add(cur, 1)
+				okc := rest.C == 0 && len(rest.T) == 1
+				for t, co := range rest.T {
+					if !strings.HasPrefix(t, "conv:int(math.Floor(") || co != 1 {
 						okc = false
 					}
 				}
